@@ -106,8 +106,8 @@ PROPS["C09"] = {
     "modelled": SER_MODELLED,
 }
 PROPS["C10"] = {
-    "quick": [("fork", 250, 120)],
-    "thorough": [("fork", 5000, 300)],
+    "quick": [("fork", 250, 120), ("joinser", 40, 12)],
+    "thorough": [("fork", 5000, 300), ("joinser", 1000, 16)],
     "rule": "prefix from gc/alloc/cycle profiles (or: everything read and collected first; allocator calls only; nothing), clone, then inspect of every present vertex and slices on both copies (raw slot reads through dangling edges included) and the internal snapshots of both (hook) which must be equal, then (A) the same calls on both copies (next_id included), (B) different calls on the two copies with the other copy observed after every call, drain of both; non-trivial = at least one collection",
     "nontrivial": "collections",
     "modelled": CORE_MODELLED + ["PARTIAL: the deep-copy behaviour of the containers' Clone impls lives in the Rust runtime and is decided by the correspondence only"],
